@@ -54,7 +54,7 @@ iterations); a loop variable's value after a fused / fissioned / interchanged / 
 """
 import hashlib
 
-from vf import xform
+from vf import xform, w2_xgroup
 from vf.explore import deviations
 
 PROPERTY = 'C31'
@@ -272,9 +272,10 @@ def n_build(dev):
 DECL = '''module lmod
   implicit none
 contains
-  subroutine kern(a, b, c, d, p, a2, b2, c3, q, n, m, k, nn)
+  subroutine kern(a, b, c, d, e, p, a2, b2, c3, q, n, m, k, nn)
     integer, intent(in) :: n, m, k, nn
     real, intent(inout) :: a(0:nn), b(0:nn), c(0:nn), d(0:nn)
+    real, intent(inout) :: e(:)
     real, intent(in) :: p(0:nn)
     real, intent(inout) :: a2(0:nn, 0:nn), b2(0:nn, 0:nn), c3(0:nn, 0:nn, 0:nn)
     real, intent(inout) :: q
@@ -286,30 +287,32 @@ GRID_DRIVER = '''program drv
   implicit none
   integer, parameter :: nn = 6, ng = 6
   integer, parameter :: ns(ng) = (/ 3, 4, 2, 1, 0, 5 /), ms(ng) = (/ 3, 2, 5, 1, 2, 4 /), ks(ng) = (/ 1, 2, 0, 1, 1, 3 /)
-  real :: a(0:nn), b(0:nn), c(0:nn), d(0:nn), p(0:nn), a2(0:nn, 0:nn), b2(0:nn, 0:nn), c3(0:nn, 0:nn, 0:nn), q
-  integer :: g, e, f, h
+  real :: a(0:nn), b(0:nn), c(0:nn), d(0:nn), e(0:nn), p(0:nn), a2(0:nn, 0:nn), b2(0:nn, 0:nn), c3(0:nn, 0:nn, 0:nn), q
+  integer :: g, ie, f, h
   do g = 1, ng
-    do e = 0, nn
-      a(e) = real(e) * 0.5 - 1.0
-      b(e) = real(mod(e*g, 4)) * 0.25 + 1.0
-      c(e) = real(e - g) * 0.25
-      d(e) = 2.0 - real(e)
-      p(e) = real(mod(e + g, 3)) * 0.5 + 0.25
+    do ie = 0, nn
+      a(ie) = real(ie) * 0.5 - 1.0
+      b(ie) = real(mod(ie*g, 4)) * 0.25 + 1.0
+      c(ie) = real(ie - g) * 0.25
+      d(ie) = 2.0 - real(ie)
+      e(ie) = 1.0 + real(ie)*0.25
+      p(ie) = real(mod(ie + g, 3)) * 0.5 + 0.25
       do f = 0, nn
-        a2(e, f) = real(e - 2*f) * 0.25
-        b2(e, f) = real(e*f) * 0.125
+        a2(ie, f) = real(ie - 2*f) * 0.25
+        b2(ie, f) = real(ie*f) * 0.125
         do h = 0, nn
-          c3(e, f, h) = real(e + 2*f - h) * 0.5
+          c3(ie, f, h) = real(ie + 2*f - h) * 0.5
         end do
       end do
     end do
     q = 0.5 * real(g)
-    call kern(a, b, c, d, p, a2, b2, c3, q, ns(g), ms(g), ks(g), nn)
+    call kern(a, b, c, d, e, p, a2, b2, c3, q, ns(g), ms(g), ks(g), nn)
     write(*,'(A,I0)') 'G', g
     write(*,'(A,7(1X,ES14.7))') 'A', a
     write(*,'(A,7(1X,ES14.7))') 'B', b
     write(*,'(A,7(1X,ES14.7))') 'C', c
     write(*,'(A,7(1X,ES14.7))') 'D', d
+    write(*,'(A,7(1X,ES14.7))') 'E', e
     write(*,'(A,49(1X,ES14.7))') 'A2', a2
     write(*,'(A,49(1X,ES14.7))') 'B2', b2
     write(*,'(A,343(1X,ES14.7))') 'C3', c3
@@ -420,7 +423,8 @@ def s_build(dev):
     s3 = ['c(i) = c(i) + real(i) + p(i)'] if not two_d else ['c3(i, j, 1) = c3(i, j, 1) + real(i + j)*0.5']
     if dev.get('raw_array'):
         # the array written before the fission point is updated again after it (same element: still independent)
-        s3 = [f'{x("a")} = {x("a")}*2.0']
+        s1.append('e(i + 1) = e(i + 1) + p(i)')
+        s3 = ['e(i + 1) = e(i + 1)*2.0']
     pr = f'!$loki loop-fission{col}'
     body = list(s1)
     if pts in ('first', 'both'):
@@ -501,11 +505,12 @@ def i_build(dev):
 B_DECL = '''module lmod
   implicit none
 contains
-  subroutine kern(a, b, c, d, p, a2, b2, c3, q, n, m, k, nn)
+  subroutine kern(a, b, c, d, e, p, a2, b2, c3, q, n, m, k, nn)
     integer, intent(in) :: n, m, k, nn
     real, intent(inout) :: a(0:nn), b(0:nn)
     real, intent(out) :: c(0:nn)
     real, intent(inout) :: d(0:nn)
+    real, intent(inout) :: e(:)
     real, intent(in) :: p(0:nn)
     real, intent(inout) :: a2(0:nn, 0:nn), b2(0:nn, 0:nn), c3(0:nn, 0:nn, 0:nn)
     real, intent(inout) :: q
@@ -720,6 +725,11 @@ def worker(case):
 worker.base = None
 
 
+def group_worker(cases):
+    """cases with identical sources and driver (transformation variants): the original is built once"""
+    return w2_xgroup.run_group(cases, apply, base=worker.base, flags=FLAGS)
+
+
 def bad(r):
     return r['verdict'] not in ('ok', 'unchanged-ok', 'refused')
 
@@ -776,7 +786,7 @@ def refine_batches(ctx, cases, results, by_id):
             for part in (tr[:len(tr) // 2], tr[len(tr) // 2:]):
                 halves.append(make_case('unroll', dict(dev, range=tuple(part)), c['variant']))
                 parent.append((c, r))
-        res = xform.judge_cases(ctx, halves, worker)
+        res = w2_xgroup.judge_grouped(ctx, halves, group_worker)
         failing_parents = set()
         nxt = []
         for h, hr, (pc, pr) in zip(halves, res, parent):
@@ -800,7 +810,7 @@ def run(ctx):
     cases = make_cases(d, quick=ctx.quick)
     worker.base = str(ctx.scratch)
     ctx.reset_pool()
-    results = xform.judge_cases(ctx, cases, worker)
+    results = w2_xgroup.judge_grouped(ctx, cases, group_worker)
     by_id = {r['id']: r for r in results}
     cases, results, rounds = refine_batches(ctx, cases, results, by_id)
     xform.summarise(ctx, cases, results, sigfn(by_id), min_changed=50)
@@ -837,7 +847,7 @@ def run(ctx):
 
 
 def replay(case):
-    r = xform.run_case(case, apply, flags=FLAGS)
+    r = w2_xgroup.replay_case(case, apply, flags=FLAGS)
     if r['verdict'] == 'HARNESS':
         raise RuntimeError(r['detail'])
     return None if r['verdict'] in ('ok', 'unchanged-ok', 'refused') else f'{r["verdict"]}: {r["detail"]}'
